@@ -4,3 +4,4 @@ import CoapVerif.Props.C07
 import CoapVerif.Props.C08
 import CoapVerif.Props.C18
 import CoapVerif.Findings.C18
+import CoapVerif.Props.C12
